@@ -179,7 +179,16 @@ func (g *zgen) jsonObj(depth int) string {
 // snippet emits a few lines that display something.
 func (g *zgen) snippet(lines *[]string, usesJSON *bool) {
 	add := func(s string) { *lines = append(*lines, s) }
-	switch g.t.Draw(17) {
+	switch g.t.Draw(18) {
+	case 17: // a member that does not exist, on an object whose members are named alike (error texts may quote neighbours)
+		cls := "类" + g.v()
+		add(fmt.Sprintf("定义%s：\n\t其宽度 = 1\n\t其高度 = 2\n\t其深度 = 3\n\n\t如何求面积？\n\t\t输出1\n\n\t如何求体积？\n\t\t输出2\n\n\t如何求周长？\n\t\t输出3\n", cls))
+		o := g.v()
+		add(fmt.Sprintf("令%s = （新建%s）", o, cls))
+		add(pick(g.t, []string{
+			fmt.Sprintf("（显示：%s 之 长度）", o), fmt.Sprintf("%s 之 长度 = 5", o), fmt.Sprintf("（显示：以%s（求容积））", o),
+			fmt.Sprintf("（显示：%s 之 度）", o), fmt.Sprintf("（显示：以%s（求面））", o), fmt.Sprintf("（显示：%s 之 宽高度）", o),
+		}))
 	case 16: // dictionaries holding values that cannot be compared (functions, objects, classes) next to entries that differ
 		cls := "类" + g.v()
 		add(fmt.Sprintf("定义%s：\n\t其名 = “n”\n", cls))
